@@ -505,6 +505,97 @@ func (w *c11World) gen(rng *rand.Rand, key, ver int16) kmsg.Request {
 	return req
 }
 
+// c11Content names what a decoded reply actually carried, so that the evidence shows the workload reached the
+// data-bearing paths and not only error stubs.
+func c11Content(resp kmsg.Response) []string {
+	var out []string
+	switch v := resp.(type) {
+	case *kmsg.ProduceResponse:
+		for _, t := range v.Topics {
+			for _, p := range t.Partitions {
+				if p.ErrorCode == 0 {
+					out = append(out, "produce_partition_ok")
+				} else {
+					out = append(out, "produce_partition_error")
+				}
+			}
+		}
+	case *kmsg.FetchResponse:
+		for _, t := range v.Topics {
+			for _, p := range t.Partitions {
+				if len(p.RecordBatches) > 0 {
+					out = append(out, "fetch_partition_with_records")
+				} else if p.ErrorCode != 0 {
+					out = append(out, "fetch_partition_error")
+				}
+			}
+		}
+	case *kmsg.MetadataResponse:
+		if len(v.Topics) > 0 {
+			out = append(out, "metadata_with_topics")
+		}
+	case *kmsg.JoinGroupResponse:
+		if v.ErrorCode == 0 && v.MemberID != "" {
+			out = append(out, "join_group_ok")
+		}
+	case *kmsg.SyncGroupResponse:
+		if v.ErrorCode == 0 {
+			out = append(out, "sync_group_ok")
+		}
+	case *kmsg.HeartbeatResponse:
+		if v.ErrorCode == 0 {
+			out = append(out, "heartbeat_ok")
+		}
+	case *kmsg.OffsetCommitResponse:
+		for _, t := range v.Topics {
+			for _, p := range t.Partitions {
+				if p.ErrorCode == 0 {
+					out = append(out, "offset_commit_ok")
+				}
+			}
+		}
+	case *kmsg.OffsetFetchResponse:
+		if len(v.Topics) > 0 || len(v.Groups) > 0 {
+			out = append(out, "offset_fetch_with_topics")
+		}
+	case *kmsg.ListOffsetsResponse:
+		for _, t := range v.Topics {
+			for _, p := range t.Partitions {
+				if p.ErrorCode == 0 {
+					out = append(out, "list_offsets_ok")
+				}
+			}
+		}
+	case *kmsg.CreateTopicsResponse:
+		for _, t := range v.Topics {
+			if t.ErrorCode == 0 {
+				out = append(out, "create_topic_ok")
+			}
+		}
+	case *kmsg.DescribeConfigsResponse:
+		for _, rr := range v.Resources {
+			if len(rr.Configs) > 0 {
+				out = append(out, "describe_configs_with_entries")
+			}
+		}
+	case *kmsg.DescribeGroupsResponse:
+		for _, g := range v.Groups {
+			if len(g.Members) > 0 {
+				out = append(out, "describe_groups_with_members")
+			}
+		}
+	case *kmsg.ListGroupsResponse:
+		if len(v.Groups) > 0 {
+			out = append(out, "list_groups_nonempty")
+		}
+	case *kmsg.ApiVersionsResponse:
+		if len(v.ApiKeys) > 0 {
+			out = append(out, "api_versions_table")
+		}
+	}
+	return out
+}
+
 // learn feeds reply content back into the pool (member ids handed out by JoinGroup).
 func (w *c11World) learn(resp kmsg.Response) {
 	if j, ok := resp.(*kmsg.JoinGroupResponse); ok && j.MemberID != "" && len(w.members) < 12 {
@@ -638,6 +729,9 @@ func c11RunMatrix(r *verifkit.Run, m c11Matrix) {
 		resp := c11Judge(r, cs, ex)
 		if resp != nil {
 			world.learn(resp)
+			for _, c := range c11Content(resp) {
+				r.Count("content_"+c, 1)
+			}
 		}
 		nontrivial := resp != nil && len(ex.reply) > 8
 		r.Case(verifkit.Hash(target, wire), nontrivial)
